@@ -71,12 +71,16 @@ SMALL2 = SMALL + """
 
 Additionally for this round: AVOID the statements a reviewer would look at first (the `if violation_error is not None: raise ...` gates and the order of the phases in the two `wrapper` closures of `decorate_with_checker`, the loops of `_assert_preconditions`/`_assert_postconditions`, the list concatenations in `_collapse_*`, the `_IN_PROGRESS` set/reset lines). Prefer slips that depend on DATA rather than on control flow: the wrong one of two variables of the same type (`resolved_kwargs` vs `condition_kwargs`, `base` vs `cls`, `func` vs `wrapper`, `node.body` vs `node.orelse`), a wrong dictionary key or attribute name of a sibling (`__postconditions__` for `__preconditions__`, `fset` for `fget`), an index or slice off by one, a `getattr`/`dict.get` default changed, an `except` clause widened or narrowed, a keyword argument not passed on (so the callee's default applies), a `functools.wraps`/`update_wrapper` detail, a condition on `len(...)`/emptiness/`None` that treats one boundary case differently, a string constant of an error message or a reserved name changed in one of two places that must agree, a flag initialised with the wrong value. Also consider the less-travelled code: `_types.py`, `_globals.py`, the decorators' `__init__`, `kwargs_from_call`, `resolve_kwdefaults`, `select_*_kwargs`, `_find_self`, `_already_decorated_with_invariants`, `add_invariant_checks`, `_decorate_new_with_invariants`, `_decorate_namespace_property`, `_dbc_decorate_namespace`, `DBCMeta` itself, `is_lambda`, `inspect_decorator`, `find_lambda_condition`, `collect_variable_lookup`, `_representable`, the rarely used `visit_*` methods of both visitors (Slice, Starred, Dict/Set displays, FormattedValue, JoinedStr, NamedExpr, Lambda, Await), `_execute_comprehension`, `_translate_all_expression_to_a_module`."""
 
+OPT = """For this round produce THREE changes (`a`, `b`, `c`), and make each of them a well-meant PERFORMANCE OPTIMISATION or SIMPLIFICATION of the kind a maintainer profiling the library would commit -- one that happens to break the property. Ideas: compute something once at decoration / class-creation time instead of at every call (signature data, the lists of contracts, the selected invariants, a lookup table) although it can change later; cache a result on the function, the contract, the class or in a module-level dict keyed by something that is not unique enough (`id(...)` of a short-lived object, a name, a code object, a signature); add a fast path that skips work when it 'obviously' is not needed (no postconditions, no snapshots, empty kwargs, a single group, an already-seen object, the common sync case) but skips slightly too much; hoist a statement out of a loop or a `try`; replace a copy by a reference or a fresh container by a shared default; short-circuit a loop early; replace a general mechanism (ContextVar, MRO lookup, `inspect.signature`, `getattr_static`) by a cheaper approximation (a plain attribute, `__dict__`, `__code__.co_varnames`, a thread-local or module global); avoid a second pass by merging two loops; drop a 'redundant' check, re-validation, `sorted`, `list(...)` or `copy`; build a message or repr lazily or eagerly instead of the other way round. 5-40 changed lines each; each change should come with a short comment or docstring line that a real commit would carry (the motivation), and must not mention that it breaks anything. Spread the three over different functions and clauses of the property."""
+
 for line in open("/verif/properties.jsonl"):
     rec = json.loads(line)
     pid = rec["id"]
     wt = prefix + pid[1:]
     if style in ("small", "small2"):
         st = SMALL if style == "small" else SMALL2
+    elif style == "opt":
+        st = OPT
     elif style == "regress":
         hashes = FIXES.get(pid, [])
         relevant = ("The ones most relevant to this property: %s. " % ", ".join(hashes)) if hashes else "Pick whichever of them touches this property's mechanism (if none does, both changes are free). "
@@ -86,5 +90,7 @@ for line in open("/verif/properties.jsonl"):
     text = TEMPLATE.format(wt=wt, out=out, pid=pid, record=json.dumps(rec, indent=1), style=st)
     if style in ("small", "small2"):
         text = text.replace("Produce TWO independent changes (call them `a`, `b`)", "Produce FOUR independent changes (call them `a`, `b`, `c`, `d`)").replace("`{out}/{pid}/a/`, `.../b/`:".format(out=out, pid=pid), "`{out}/{pid}/a/`, `.../b/`, `.../c/`, `.../d/`:".format(out=out, pid=pid)).replace("a brief description of the two changes", "a brief description of the four changes")
+    if style == "opt":
+        text = text.replace("Produce TWO independent changes (call them `a`, `b`)", "Produce THREE independent changes (call them `a`, `b`, `c`)").replace("`{out}/{pid}/a/`, `.../b/`:".format(out=out, pid=pid), "`{out}/{pid}/a/`, `.../b/`, `.../c/`:".format(out=out, pid=pid)).replace("a brief description of the two changes", "a brief description of the three changes")
     open(os.path.join(out, "prompt_%s.txt" % pid), "w").write(text)
 print("wrote 20 prompts to", out)
